@@ -5,7 +5,8 @@
    the end of each group. *)
 From Lal Require Import Common.LBytes Common.Res Net.NetChk Net.NetChkProofs
   Net.NetRtpHeader Net.NetRtpHeaderProofs Net.NetRtcp Net.NetInterleaved Net.NetWsRead Net.NetFramingProofs
-  Net.NetAuHeader Net.NetAuHeaderProofs Net.NetUnpack Net.NetUnpackProofs Net.NetInSess Net.NetInSessProofs Net.NetPs Net.NetPsProofs.
+  Net.NetAuHeader Net.NetAuHeaderProofs Net.NetUnpack Net.NetUnpackProofs Net.NetInSess Net.NetInSessProofs Net.NetPs Net.NetPsProofs
+  Net.NetStr Net.NetSdpRaw Net.NetUrlPath Net.NetRtmpClient Net.NetTextProofs.
 Open Scope N_scope.
 
 (* ---- 1. RTP header / packet / body ------------------------------------- *)
@@ -135,6 +136,40 @@ Theorem c13_ps_refuted :
                 ++ [0; 0; 1; 224; 0; 12; 128; 128; 5; 33; 0; 1; 0; 3; 0; 0; 1; 101]] = Panic s_ps_wrap_index.
 Proof. exact run_ps_pinned_refuted. Qed.
 Print Assumptions c13_ps_refuted.
+
+(* ---- 6. SDP a=rtpmap / a=fmtp / m= lines, RTMP url path, HLS request path -- *)
+Theorem c13_no_panic_sdp_rtpmap : forall s, is_panic (parse_a_rtpmap s) = false.
+Proof. exact parse_a_rtpmap_no_panic. Qed.
+Print Assumptions c13_no_panic_sdp_rtpmap.
+Theorem c13_no_panic_sdp_fmtp : forall s, is_panic (parse_a_fmtp s) = false.
+Proof. exact parse_a_fmtp_no_panic. Qed.
+Print Assumptions c13_no_panic_sdp_fmtp.
+Theorem c13_no_panic_sdp_m : forall s, is_panic (parse_m s) = false.
+Proof. exact parse_m_no_panic. Qed.
+Print Assumptions c13_no_panic_sdp_m.
+Theorem c13_no_panic_rtmp_url : forall text, is_panic (parse_rtmp_url true text) = false.
+Proof. exact parse_rtmp_url_no_panic. Qed.
+Print Assumptions c13_no_panic_rtmp_url.
+(* pinned tree: rtmp://host/a?x?y slices [1:0] *)
+Theorem c13_rtmp_url_refuted : parse_rtmp_url false [47; 97; 63; 120; 63; 121] = Panic s_rtmpurl_slice.
+Proof. exact parse_rtmp_url_pinned_refuted. Qed.
+Print Assumptions c13_rtmp_url_refuted.
+Theorem c13_no_panic_hls_request : forall text, is_panic (hls_request_info text) = false.
+Proof. exact hls_request_info_no_panic. Qed.
+Print Assumptions c13_no_panic_hls_request.
+
+(* ---- 7. RTMP client side: a message from the upstream origin ------------- *)
+Theorem c13_no_panic_rtmp_client_msg : forall typeid p, is_panic (client_do_msg true typeid p) = false.
+Proof. exact client_do_msg_no_panic. Qed.
+Print Assumptions c13_no_panic_rtmp_client_msg.
+(* pinned tree: unknown message type id = panic(0); short ack / user control bodies *)
+Theorem c13_rtmp_client_refuted :
+  client_do_msg false 2 [] = Panic s_rtmpc_explicit /\
+  client_do_msg false 3 [0; 0; 1] = Panic s_rtmpc_be32 /\
+  client_do_msg false 4 [0] = Panic s_rtmpc_be16 /\
+  client_do_msg false 4 [0; 6; 0; 0] = Panic s_rtmpc_be32.
+Proof. exact client_do_msg_pinned_refuted. Qed.
+Print Assumptions c13_rtmp_client_refuted.
 
 (* non-vacuity: a well-formed packet with CSRC, extension and padding is accepted *)
 Example c13_rtp_nonvacuous :
